@@ -159,6 +159,16 @@ theorem loopE_verdict {α} (abort : Bool) (fails : Bool → List Result → Bool
           rw [happ, hfl, ih nc' rs' hl]
           cases P rs1 <;> cases P rs' <;> rfl
 
+theorem good_evalComponent (e : Env) (s : Shape) (comp : Component) (fv : FV) : Good (evalComponent e s comp fv) := by
+  unfold evalComponent
+  repeat' first
+    | exact good_error _
+    | exact good_ok_true
+    | exact good_ofResults _
+    | (apply good_foldOut; intro _)
+    | split
+    | dsimp only
+
 theorem validateCore_verdict (c : Ctx) (rec' : Rec) (hrec : ∀ s v p, Good (rec' s v p))
     (s : Shape) (fl : List Term) (path : Option (List PathEntry)) (conf : Bool) (rs : List Result)
     (h : validateCore c rec' s fl path = .ok (conf, rs)) : conf = okSet c.o path.isNone rs := by
@@ -174,8 +184,20 @@ theorem validateCore_verdict (c : Ctx) (rec' : Rec) (hrec : ∀ s v p, Good (rec
         have hv := loopE_verdict _ _ _ (okSet c.o path.isNone) (okSet_nil _ _) (okSet_append _ _)
           (fun k cf r hk => constraintFails_good c.o path.isNone cf r
             (good_evalConstraint c.toEnv rec' hrec s k _ _ cf r hk)) _ nonConf rs' hl
-        cases h
-        rw [hv]; simp
+        split at h
+        · cases h
+        · split at h
+          · cases h
+            rw [hv]; simp
+          · split at h
+            · cases h
+            · rename_i nonConf2 rs2 hl2
+              have hv2 := loopE_verdict _ _ _ (okSet c.o path.isNone) (okSet_nil _ _) (okSet_append _ _)
+                (fun comp cf r hk => constraintFails_good c.o path.isNone cf r
+                  (good_evalComponent c.toEnv s comp _ cf r hk)) _ nonConf2 rs2 hl2
+              cases h
+              rw [okSet_append, hv, hv2]
+              cases okSet c.o path.isNone rs' <;> cases okSet c.o path.isNone rs2 <;> rfl
 
 /-- the body of `Shape.validate`, given nested evaluations that conform exactly when they report nothing -/
 theorem validateBody_verdict (c : Ctx) (rec' : Rec) (hrec : ∀ s v p, Good (rec' s v p))
